@@ -4,10 +4,14 @@
 package main
 
 import (
+	"bytes"
 	"fmt"
+	"github.com/a-h/templ/generator"
 	"go/ast"
 	goparser "go/parser"
 	"go/token"
+	"reflect"
+	"runtime"
 	"strings"
 	"unicode/utf8"
 
@@ -77,6 +81,24 @@ var contexts = []struct{ name, prefix string }{
 	{"after multi-byte text", "é€😀 "},
 }
 
+// failingSrc is generated into a writer that fails part-way (multi-line and multi-byte expressions, several templates).
+const failingSrc = "package p\n\nimport \"fmt\"\n\ntempl A(x string) {\n\t<div class={ x }>é{ fmt.Sprint(\n\t\tx,\n\t) }</div>\n\tfor _, v := range []string{x} {\n\t\t<i>{ v }</i>\n\t}\n}\n\ntempl B(y string) {\n\t<p title={ y }>{ y }</p>\n}\n"
+
+type failAfter struct{ n, got int }
+
+func (w *failAfter) Write(b []byte) (int, error) {
+	if w.got+len(b) > w.n {
+		k := w.n - w.got
+		if k < 0 {
+			k = 0
+		}
+		w.got += k
+		return k, fmt.Errorf("writer failed")
+	}
+	w.got += len(b)
+	return len(b), nil
+}
+
 func checkProgram(p prog) {
 	programs++
 	raw, out, tf, err := tgen.GenerateRaw(p.src, "x.templ")
@@ -87,6 +109,27 @@ func checkProgram(p prog) {
 		return // gofmt rejects it
 	}
 	accepted++
+	// purity: generating again from the SAME parse tree gives the same text and the same source map (the generator must
+	// not modify the tree it is given, nor keep state from the first call)
+	{
+		var b2 bytes.Buffer
+		out2, err2 := generator.Generate(tf, &b2, generator.WithFileName("x.templ"))
+		if err2 != nil || b2.String() != raw || !reflect.DeepEqual(out2.SourceMap, out.SourceMap) {
+			run.Violation("generate-twice-differs", fmt.Sprintf("%s: generating a second time from the same parse tree gives another result (err %v, text equal %v, source map equal %v)", p.name, err2, b2.String() == raw, reflect.DeepEqual(out2.SourceMap, out.SourceMap)), map[string]any{"program": p.name, "source": p.src})
+		}
+	}
+	// history: a generation that fails because its writer fails after n bytes, then this program again from a fresh
+	// parse: text and source map as before
+	{
+		n := []int{0, 1, 100, 700, 3000}[programs%5]
+		if ftf, err := parser.ParseString(failingSrc); err == nil {
+			generator.Generate(ftf, &failAfter{n: n}, generator.WithFileName("f.templ"))
+		}
+		raw3, out3, _, err3 := tgen.GenerateRaw(p.src, "x.templ")
+		if err3 != nil || raw3 != raw || !reflect.DeepEqual(out3.SourceMap, out.SourceMap) {
+			run.Violation("generate-after-failed-generate-differs", fmt.Sprintf("%s: after a generation whose writer failed at byte %d, generating this program gives another result (err %v, text equal %v, source map equal %v)", p.name, n, err3, raw3 == raw, reflect.DeepEqual(out3.SourceMap, out.SourceMap)), map[string]any{"program": p.name, "source": p.src, "failed_at": n})
+		}
+	}
 	sm := out.SourceMap
 	src := p.src
 	replay := map[string]any{"program": p.name, "source": src}
@@ -322,6 +365,7 @@ func clip(s string) string {
 
 func main() {
 	run = vlib.Start("C07", "exploration")
+	runtime.LockOSThread() // histories: pooled state of one generation is met by the next
 	var progs []prog
 	for _, d := range tgen.Corpus() {
 		progs = append(progs, prog{"corpus " + d.Name, d.Src})
